@@ -9,6 +9,10 @@ META = dict(
 
 DRIVER = "Driver/C37.lean"
 
+import importlib.util, os
+_spec = importlib.util.spec_from_file_location("c37chain", os.path.join(os.path.dirname(__file__), "_c37chain.py"))
+_chain = importlib.util.module_from_spec(_spec); _spec.loader.exec_module(_chain)
+
 
 def run(ctx):
     ctx.lean_proofs("Props.C37")
@@ -23,8 +27,11 @@ def run(ctx):
     ctx.stream("upgrades", "c37", DRIVER, n=n)
     if ctx.thorough:
         ctx.stream("upgrades-s1", "c37", DRIVER, n=20000, seed=ctx.seed * 1000 + 37)
+    # chain level: real MsgUpgrade transactions through DeliverTx, restart in a fresh process
+    _chain.run_chain(ctx)
 
 
 def search(ctx):
     for s in range(2):
         ctx.stream(f"search{s}", "c37", DRIVER, n=8000, seed=ctx.seed * 7919 + s, count=False)
+    _chain.search_chain(ctx)
